@@ -22,7 +22,9 @@ R(i) == regs[i]
 Status(b) == IF b THEN "ones" ELSE "zero"
 Advance(newregs, ok) == Chk(ok) /\ l' = l + 1 /\ regs' = newregs /\ UNCHANGED grp
 Put(P) == [regs EXCEPT ![e.dst] = P]
-Write(P) == Advance(Put(P), Has("out") /\ e.out = GEncode(grp, P))
+\* every register write logs the encoding of the result (and the compressed SEC1 form where there is one)
+EncOk(P) == Has("out") /\ e.out = GEncode(grp, P) /\ (Has("outc") => e.outc = GEncodeC(grp, P))
+Write(P) == Advance(Put(P), EncOk(P))
 Observe(ok) == Advance(regs, ok)
 \* scalars are logged as byte strings and reduced modulo the scalar order
 Sc(b) == Mod(FromBytesLE(b), ScalarOrder(grp))
@@ -38,7 +40,7 @@ DoDecode ==
     /\ Is("decode")
     /\ LET d == GDecode(grp, e["in"])
            stOk == Has("st") => e.st = Status(d[1])       \* status word of set_decode: all-ones iff accepted
-       IN IF d[1] THEN Advance(Put(d[2]), Has("some") /\ e.some = TRUE /\ Has("out") /\ e.out = GEncode(grp, d[2]) /\ stOk)
+       IN IF d[1] THEN Advance(Put(d[2]), Has("some") /\ e.some = TRUE /\ EncOk(d[2]) /\ stOk)
           ELSE Advance(regs, Has("some") /\ e.some = FALSE /\ stOk)
 (* ---- group law (C03) ---- *)
 DoAdd == Is("add") /\ Write(GAdd(grp, R(e.a), R(e.b)))
@@ -136,7 +138,7 @@ DoToProjective == Is("to_projective")
                                         /\ FV(e.x) = FMul(FP, P[1], FV(e.z)) /\ FV(e.y) = FMul(FP, P[2], FV(e.z)))
 \* constructors: the coordinates (reduced) must satisfy the curve equation; any (X : Y : 0) is
 \* accepted as the point at infinity
-Constructed(ok, P) == IF ok THEN Advance(Put(P), Has("some") /\ e.some = TRUE /\ Has("out") /\ e.out = GEncode(grp, P))
+Constructed(ok, P) == IF ok THEN Advance(Put(P), Has("some") /\ e.some = TRUE /\ EncOk(P))
                       ELSE Advance(regs, Has("some") /\ e.some = FALSE)
 DoFromAffine == Is("from_affine")
                 /\ LET P == <<Mod(FV(e.x), FP), Mod(FV(e.y), FP)>>
